@@ -4,6 +4,7 @@ import ast
 
 from ..core.absint import Interp, alternatives, pretty
 from ..core.analysis import Analysis, facts
+from ..core.cfg import decompose_guard
 from ..core.forms import canon, srcinfo
 from ..core.pyrepo import Repo, calls_in, dotted, norm_stmt
 from ..core.report import AnalysisError
@@ -235,11 +236,16 @@ def run(ctx):
     for n in ccfg.nodes:
         if n.kind == "raise" and "ValueError" in norm_stmt(n.stmt):
             gs = ccfg.guards(n)
-            if not gs or gs[-1][1] is not True:
-                continue
-            g = gs[-1][0]
-            if isinstance(g, ast.Compare) and len(g.ops) == 1 and isinstance(g.ops[0], ast.NotIn) \
-                    and dotted(g.left) == kparam:
+            # any spelling of the test: `kind not in K` true, `kind in K` false,
+            # behind `not`, an early return, ...
+            atoms = [(a, t) for e_, p_, _ in gs if p_ in (True, False)
+                     for a, t in decompose_guard(e_, p_)]
+            for g, t_ in atoms:
+                if not (isinstance(g, ast.Compare) and len(g.ops) == 1
+                        and isinstance(g.ops[0], (ast.In, ast.NotIn))
+                        and isinstance(g.ops[0], ast.NotIn) == bool(t_)
+                        and dotted(g.left) == kparam):
+                    continue
                 rhs = g.comparators[0]
                 srcs = [rhs] + [st.value for st in ast.walk(ck.node) if isinstance(st, ast.Assign)
                                 and dotted(rhs) and dotted(st.targets[0]) == dotted(rhs)]
@@ -323,7 +329,6 @@ def run(ctx):
                      f"{name}: " + ("the port is not parsed as hexadecimal" if not base16
                                     else "a zero port no longer yields the empty address ()"))
     # a table is skipped without being read only when its file does not exist
-    from ..core.cfg import decompose_guard
     picfg = A.cfg(pi)
     fparam = pi.node.args.args[0].arg if pi.node.args.args else "file"
     opens = [n for c in calls_in(pi.node) if (dotted(c.func) or "").split(".")[-1] in
